@@ -63,10 +63,10 @@ func clip(s string) string {
 }
 
 func run(t *rapid.T) {
-	b := fam.Bounds{MaxRows: 24, MaxCols: 4, MaxMembers: 24, HugeOdds: 150, GiantOdds: uint64(core.EnvInt("VERIF_GIANT_ODDS", 250))}
+	b := fam.Bounds{MaxRows: 24, MaxCols: 4, MaxMembers: 24, HugeOdds: 150, GiantOdds: uint64(core.EnvInt("VERIF_GIANT_ODDS", 250)), LongNamesOdds: 8}
 	maxOps, maxBuild, maxClients := 4, 5, 6
 	if core.Thorough() {
-		b = fam.Bounds{MaxRows: 64, MaxCols: 5, MaxMembers: 40, HugeOdds: 60, GiantOdds: uint64(core.EnvInt("VERIF_GIANT_ODDS", 150))}
+		b = fam.Bounds{MaxRows: 64, MaxCols: 5, MaxMembers: 40, HugeOdds: 60, GiantOdds: uint64(core.EnvInt("VERIF_GIANT_ODDS", 150)), LongNamesOdds: 8}
 		maxOps, maxBuild, maxClients = 6, 8, 8
 	}
 	w := fam.NewWorld(t, b)
